@@ -1,5 +1,5 @@
 import Ohsl.Driver.Sparse
-import Ohsl.Model.Krylov
+import Ohsl.Model.KrylovSp
 namespace Ohsl
 namespace DrvKrylov
 
@@ -30,17 +30,11 @@ def krylov : P String := do
   match Sp.fromTriplets rows cols trips with
   | .error e => pure ("!" ++ toString e)
   | .ok s =>
-    if s.rows ≠ b.size then pure "!size"
-    else if s.rows ≠ s.cols then pure "!size"
-    else if b.size ≠ x0.size then pure "!size"
-    else if solver == "bicg" && itol ≠ 1 && itol ≠ 2 then pure "!range"
-    else
-      let o := vops s rows
-      let r : KOut Float (Array Float) := match solver with
-        | "cg" => Krylov.solveCG o b x0 maxIter tol
-        | "bicg" => Krylov.solveBiCG o b x0 maxIter tol itol
-        | "bicgstab" => Krylov.solveBiCGSTAB o b x0 maxIter tol
-        | _ => Krylov.solveQMR o b x0 maxIter tol
+    let m : Sp.Method := match solver with
+      | "cg" => .cg | "bicg" => .bicg itol | "bicgstab" => .bicgstab | _ => .qmr
+    match Sp.solveIter s m b x0 maxIter tol Vec.norm2 with
+    | .error e => pure ("!" ++ toString e)
+    | .ok r =>
       if r.ok then pure s!"ok {r.iters} | {wArr r.x}"
       else pure s!"err {Wire.wr r.err} | {wArr r.x}"
 
